@@ -97,7 +97,11 @@ SEARCH["find_sym_op_general_bin"] = dict(
     real="decide (V ≥ 4) && V % 4 == 0 && decide (0 ≤ view) && decide (view < V) && s != 0",
     lets=[_IDX, _SYMY, "let o := y.symOpGeneral s seg view ax"],
     gen="Gen.find_sym_op_general_bin V d90 d180 sw sws shz (y.transformZ (C03.iabs seg) (if shz then 0 else ax)) (y.nppa seg) s seg view ax", model=_TUP)
-SO_KERNELS = [k for k in SEARCH if k.startswith("so_")] + ["find_sym_op_bin0", "find_sym_op_general_bin"]
+SEARCH["cache_key"] = dict(
+    theorems=["bridge_cache_key"], vars=[("ax", "Int", -300, 300), ("tang", "Int", -40, 40), ("tof", "Int", -12, 12)],
+    gen="Gen.cache_key (ax * 1000003) (tang * 97) (tof * 40009)", model="C03.cacheKey ⟨0, 0, ax * 1000003, tang * 97, tof * 40009⟩",
+    pre="decide ((ax * 1000003).natAbs < 2 ^ 28) && decide ((tang * 97).natAbs < 2 ^ 12) && decide ((tof * 40009).natAbs < 2 ^ 20)")
+SO_KERNELS = [k for k in SEARCH if k.startswith("so_")] + ["cache_key"] + ["find_sym_op_bin0", "find_sym_op_general_bin"]
 GEN_DIR = ("StirVerif", "Gen")
 
 
